@@ -13,7 +13,7 @@ c = copy.deepcopy(recs)
 c[1]['lit']['sqlite'] = "'a'a'"     # unit: emitted text loses the doubled quote
 c[len(S) + 2]['got'] = 'a"a '        # pipe: returned value gets a trailing blank
 r = c[2 * len(S) + 3]                # sql: one character inside the literal changed
-r['sql'] = r['sql'][:r['at'] + 1] + 'a' + r['sql'][r['at'] + 2:]
+r['sql'] = r['sql'][:r['mpos'] + 1] + 'a' + r['sql'][r['mpos'] + 2:]
 bad, summ, err, st = strlit.Validate(c, 'c10corrupt', nshards=1)
 print('corrupted trace: bad', {k: [b.get('why') or (b['d'], b['via'], b['why']) for b in v['bad']] for k, v in bad.items()}, 'errors', len(err))
 # flags
